@@ -716,6 +716,8 @@ def install(full=True, root=None, pkg='taskchain'):
     if full:
         taskchain.chain.sha256 = sx_sha256
         taskchain.cache.sha256 = sx_sha256
+    import taskchain.utils.io
+    taskchain.utils.io.progress_bar = lambda data, **kw: data      # progress output is formatting, not behaviour
     import logging
     # console output of task loggers is noise here; handlers themselves are left alone (C18 looks at them)
     taskchain.chain.Chain.log_handler.setLevel(logging.CRITICAL)
